@@ -6,6 +6,7 @@ import (
 	"runtime"
 	"sync"
 	"sync/atomic"
+	"time"
 
 	"pgregory.net/rapid"
 	"vh/drv"
@@ -30,8 +31,11 @@ type C14Case struct {
 	RawLog   bool    `json:"rawlog,omitempty"`   // -rapid.log
 	ShrinkMS int     `json:"shrinkms,omitempty"` // > 0: minimization attempts run the property (and its goroutines) on fresh Ts
 	InCustom bool    `json:"incustom,omitempty"` // the extra goroutines run while the property's goroutine is inside a Custom generator function
+	Spin     int     `json:"spin,omitempty"`     // goroutines that call Cleanup / Failed / Name in a tight loop until the context is cancelled, while the property's goroutine runs a state machine
 	LateCtx  bool    `json:"latectx,omitempty"`  // ... and asks for the context then: the property function has returned, so it must be a cancelled one
 }
+
+const spinCleanups = 5000 // cleanups one spinning goroutine registers at most
 
 type c14 struct{}
 
@@ -40,6 +44,27 @@ func init() { register(c14{}) }
 func (c14) ID() string       { return "C14" }
 func (c14) NewCase() any     { return &C14Case{} }
 func (c14) Cases(c *Ctx) int { return c.Pick(1200, 30000) }
+
+// HangLimit: a case takes milliseconds (spin cases tenths of a second); one that has not finished after a minute
+// is blocked for good (a lock that is never released), which is as much a violation of "safe to call concurrently"
+// as a lost update. Confirmed by re-running the case in a fresh process before it is reported.
+func (c14) HangLimit() time.Duration { return 60 * time.Second }
+
+// RunReplay: a blocked case depends on the interleaving; the replay runs the case up to 40 times.
+func (p c14) RunReplay(c *Ctx, csAny any) Outcome {
+	cs := csAny.(*C14Case)
+	n := 1
+	if cs.Spin > 0 {
+		n = 40
+	}
+	var out Outcome
+	for i := 0; i < n; i++ {
+		if out = p.Run(c, csAny); out.Viol != nil {
+			break
+		}
+	}
+	return out
+}
 
 var c14Ops = []string{"helper", "name", "log", "logf", "error", "errorf", "error0", "errorf0", "fail", "failed", "context", "context", "cleanup", "cleanup"}
 
@@ -73,6 +98,12 @@ func (c14) Gen(dt *drv.T, c *Ctx) any {
 	cs.InCustom = chance(dt, "incustom", 30)
 	if !quiet && chance(dt, "shrink", 40) {
 		cs.ShrinkMS = pick(dt, "shrinkms", 2, 10)
+	}
+	if chance(dt, "spin", 6) {
+		cs.Spin = drv.IntRange(1, 4).Draw(dt, "nspin")
+		if cs.Procs < 4 {
+			cs.Procs = 4
+		}
 	}
 	if chance(dt, "late", 35) {
 		cs.Late = drv.IntRange(1, 40).Draw(dt, "nlate")
@@ -197,7 +228,7 @@ func (c14) Run(c *Ctx, csAny any) Outcome {
 		if n := len(invs); n > 0 && viol == nil {
 			viol = invs[n-1].validate()
 		}
-		iv := &c14Inv{runs: make([]int32, total+cs.Late+4), ctxs: make([][]context.Context, len(cs.Gs)+1), live: make([][]bool, len(cs.Gs)+1)}
+		iv := &c14Inv{runs: make([]int32, total+cs.Late+4+cs.Spin*spinCleanups), ctxs: make([][]context.Context, len(cs.Gs)+1), live: make([][]bool, len(cs.Gs)+1)}
 		invs = append(invs, iv)
 		if cs.DrawMain {
 			intGen.Draw(t, "x")
@@ -225,6 +256,35 @@ func (c14) Run(c *Ctx, csAny any) Outcome {
 					}
 				}
 			}()
+		}
+		if cs.Spin > 0 {
+			// writers and readers of T's state in a tight loop for as long as the test case runs, while this goroutine
+			// goes through a state machine (the library looks at the failure state of T after every step)
+			cx := t.Context()
+			var spinWG sync.WaitGroup
+			t.Cleanup(func() { spinWG.Wait() }) // registered first: runs last, after the spinners have seen the cancellation
+			for s := 0; s < cs.Spin; s++ {
+				spinWG.Add(1)
+				go func(s int) {
+					defer spinWG.Done()
+					for n := 0; cx.Err() == nil && n < 4*spinCleanups; n++ {
+						switch {
+						case n%2 == 0 && n/2 < spinCleanups:
+							id := atomic.AddInt32(&iv.registered, 1) - 1
+							t.Cleanup(func() { atomic.AddInt32(&iv.runs[id], 1) })
+						case n%4 == 1:
+							_ = t.Failed()
+						default:
+							_ = t.Name()
+						}
+					}
+				}(s)
+			}
+			t.Repeat(map[string]func(*rapid.T){
+				"a": func(t *rapid.T) { rapid.Bool().Draw(t, "a") },
+				"b": func(t *rapid.T) { _ = t.Failed() },
+				"":  func(t *rapid.T) { t.Helper() },
+			})
 		}
 		start := make(chan struct{})
 		var wg sync.WaitGroup
@@ -273,6 +333,9 @@ func (c14) Run(c *Ctx, csAny any) Outcome {
 	}
 	if cs.Late > 0 {
 		out.Classes = append(out.Classes, "cleanups-registered-while-cleaning-up")
+	}
+	if cs.Spin > 0 {
+		out.Classes = append(out.Classes, "spinning-goroutines-during-a-state-machine")
 	}
 	if rep := rw.New(); rep != "" {
 		key, lib, sum := raceKey(rep)
